@@ -8,6 +8,21 @@ COMMON_ASSUME = [
 ]
 
 PROPS = {
+    "C16": {
+        "units": [{"pkg": "./mainpkg", "run": "^TestC16", "shards": 4, "shards_thorough": 8, "timeout": 1200}],
+        "rule": ("in-process chain gRPC client -> grpc.Server built from main.go's newGrpcProxy options -> 3 scripted grpc-go backends (UnknownServiceHandler; client and backends use a raw-bytes codec). rapid-generated "
+                 "tables (host-less and dsthost-specific routes per service, nested method prefixes, 1-2 backends per route, replaced before every group of 1-4 calls) and calls: method path incl. unrouted ones, "
+                 "dsthost metadata absent/present/upper-case/unknown/duplicated, 0-6 custom metadata entries incl. repeated keys, empty values and -bin keys, unary / client- / server- / bidi-streaming shapes with "
+                 "0-20 messages per direction, each a well-formed protobuf wire message of 0 B-64 KiB (thorough 3 MiB) built from random fields, backend answering after or while receiving, any status code 0-16 with "
+                 "message, headers and trailers. Oracle: the backend saw the caller's method, messages (bytes, order, count) and custom metadata; the caller saw the backend's messages, trailers, status code and "
+                 "message, and its headers whenever it sent >=1 message; the serving backend belongs to the route the specificity reference selects; unrouted => NotFound and no backend saw a stream. Pool history: N "
+                 "sequential calls per backend open <=1 connection; after a backend leaves the table its connection ends within cleanup interval + grpcshutdowntimeout + slack while the other backend keeps its "
+                 "connection; re-adding works. Non-trivial = streaming call with >=2 messages in some direction, non-OK status with trailers, or a call after a table change."),
+        "technique": "rapid model-based test of an in-process gRPC proxy chain with scripted backends (byte-exact message, metadata and status comparison) plus a connection-pool history",
+        "level_text": "Generated calls and table changes are executed against the real gRPC proxy options of main.go with scripted backends; everything each side received is compared with what the other side sent, and routing is compared with the specificity reference. Exploration only.",
+        "level_note": "Messages are well-formed protobuf wire messages (the proxy re-marshals them through emptypb unknown fields); plain-text gRPC only (no grpcs upstreams); the pool check is timing-bounded with 4 s slack.",
+        "assumptions": COMMON_ASSUME + ["grpc-go client/server used as scripted endpoints behave per the gRPC specification"],
+    },
     "C01": {
         "units": [
             {"pkg": "./c01", "shards": 4, "shards_thorough": 16, "timeout": 900},
